@@ -1535,7 +1535,7 @@ package decimal128
 //@ uses rssteps=1,2 rsmono=0 timeout=150
 //@ logical V real
 //@ requires !special(d) && V >= 0 && rs(V, bexp(d)) == coef(d)
-//@ ensures digs.neg == sign(d) && 0 <= digs.ndig && digs.ndig <= 39 && (coef(d) == 0 ==> digs.ndig == 0 && digs.exp == 0) && (coef(d) != 0 ==> digs.ndig >= 1)
+//@ ensures digs.neg == sign(d) && 0 <= digs.ndig && digs.ndig <= 38 && (coef(d) == 0 ==> digs.ndig == 0 && digs.exp == 0) && (coef(d) != 0 ==> digs.ndig >= 1)
 //@ ensures forall k in 0..38: k < digs.ndig ==> 48 <= digs.dig[k] && digs.dig[k] <= 57
 //@ ensures forall k in 1..39: digs.ndig == k ==> digs.dig[k - 1] != 48
 //@ ensures digs.ndig >= 1 ==> digs.dig[0] != 48
@@ -1659,6 +1659,7 @@ package decimal128
 //@ loop 3: decreases exp
 //@ loop 4: invariant dExp - exp == bexp(o) && exp >= 0 && exp <= 12287
 //@ loop 4: decreases exp
+//@ assert before "return zero(d.Signbit() != o.Signbit()), d"#2: Vd < Vo
 //@ limit before "qexp := exp + exponentBias"
 //@ props C03 C15 C20
 
@@ -1673,6 +1674,7 @@ package decimal128
 //@ props C18 C20
 
 //@ func Decimal.PowWithMode
+//@ uses rssteps=1,2,3,4,5,6,7,8,9,10,11,12,13,14,15,16,17,18,19,20,21,22,23,24,25,26,27,28,29,30,31,32,33,34,35 rsmono=0,1,20,34,35,36,40
 //@ define DOne = (!special(d) && bexp(d) <= 6176 && bexp(d) > 6176 - 39 && coef(d) == p10(6176 - bexp(d)))
 //@ define OOne = (!special(o) && bexp(o) <= 6176 && bexp(o) > 6176 - 39 && coef(o) == p10(6176 - bexp(o)))
 //@ define OZero = (!special(o) && coef(o) == 0)
@@ -1680,8 +1682,19 @@ package decimal128
 //@ define RisZero = (!special(r) && coef(r) == 0 && bexp(r) == 0 && !sign(r))
 //@ define RisInf = (isinf(r) && !sign(r) && lo(r) == 0)
 //@ returns (r)
-//@ logical V real
+//@ logical V real, yc int, ye int, xc int, xe int, W real
 //@ requires mode <= 5
+//@ define OFin = (!special(o) && coef(o) != 0)
+//@ define DFin = (!special(d) && coef(d) != 0)
+//@ requires OFin ==> yc >= 1 && yc % 10 != 0 && ye >= bexp(o) && ye <= bexp(o) + 38 && coef(o) == yc * p10(ye - bexp(o))
+//@ requires DFin ==> xc >= 1 && xc % 10 != 0 && xe >= bexp(d) && xe <= bexp(d) + 38 && coef(d) == xc * p10(xe - bexp(d))
+//@ define YODD = (ye == 6176 && yc % 2 == 1)
+//@ define LADDER = (!OZero && !(DOne && !sign(d)) && !OOne && !isnan(d) && !isnan(o) && OFin)
+//@ define RZero = (!special(r) && coef(r) == 0 && bexp(r) == 0)
+//@ define RInf = (isinf(r) && lo(r) == 0)
+//@ define POWTEN = (LADDER && DFin && xc == 1 && !sign(o) && ye >= 6176 && !(sign(d) && ye < 6176))
+//@ define EE = ((xe - 6176) * yc * p10(ye - 6176))
+//@ requires POWTEN && ye <= 6183 && yc <= 6111 ==> W > 0 && rs(W, 6176 + EE) == 1
 //@ requires OOne && sign(o) && !special(d) && coef(d) != 0 ==> V > 0 && rs(V, 12352 - bexp(d)) * coef(d) == 1
 //@ ensures OZero ==> RisOne
 //@ ensures !OZero && DOne && (!sign(d) || isinf(o)) ==> RisOne
@@ -1696,7 +1709,26 @@ package decimal128
 //@ ensures isinf(o) && isinf(d) ==> ite(sign(o), RisZero, RisInf)
 //@ ensures isinf(o) && !special(d) && coef(d) != 0 && cmpmag(coef(d), bexp(d), 1, 6176) == 1 ==> ite(sign(o), RisZero, RisInf)
 //@ ensures isinf(o) && !special(d) && coef(d) != 0 && cmpmag(coef(d), bexp(d), 1, 6176) == 0 - 1 ==> ite(sign(o), RisInf, RisZero)
-//@ limit before "oSig, oExp := o.decompose()"
+//@ ensures LADDER && !special(d) && coef(d) == 0 ==> sign(r) == (sign(d) && YODD) && ite(sign(o), RInf, RZero)
+//@ ensures LADDER && isinf(d) ==> sign(r) == (sign(d) && YODD) && ite(sign(o), RZero, RInf)
+//@ ensures LADDER && DFin && sign(d) && ye < 6176 ==> isnan(r) && !sign(r) && hi(r) == 0x7c00000000000000
+//@    && lo(r) == payloadOpPow + 256*payloadValNegFinite + 65536*ite(sign(o), payloadValNegFinite, payloadValPosFinite)
+//@ ensures POWTEN && xe == 6176 ==> !special(r) && coef(r) == 1 && bexp(r) == 6176 && sign(r) == (sign(d) && YODD)
+//@ ensures POWTEN && xe != 6176 && (ye > 6183 || yc > 6111) ==> sign(r) == (sign(d) && YODD) && ite(xe < 6176, RZero, RInf)
+//@ ensures POWTEN && ye <= 6183 && yc <= 6111 ==> sign(r) == (sign(d) && YODD)
+//@ ensures POWTEN && ye <= 6183 && yc <= 6111 ==> !isnan(r)
+//@ ensures POWTEN && ye <= 6183 && yc <= 6111 && EE > 6145 ==> RInf
+//@ ensures POWTEN && ye <= 6183 && yc <= 6111 && EE < 0 - 6176 ==> !special(r) && bexp(r) == 0 && coef(r) <= 1
+//@ ensures POWTEN && ye <= 6183 && yc <= 6111 && EE >= 0 - 6176 && EE <= 6145 ==> !special(r) && RndOK(mode, sign(d), rs(W, bexp(r)), coef(r), bexp(r))
+//@ ensures LADDER && DFin && !sign(d) && xc == 1 && xe % 2 == 0 && yc == 5 && ye == 6175 ==> !special(r) && !sign(r) && coef(r) == 1 && bexp(r) == 6176 + ite(sign(o), 0 - (xe - 6176) / 2, (xe - 6176) / 2)
+//@ loop 1: invariant u128(oSig) == yc * p10(ye - oExp) && oExp >= bexp(o) && oExp <= ye
+//@ loop 1: decreases u128(oSig)
+//@ loop 2: invariant u128(dSig) == xc * p10(xe - dExp) && dExp >= bexp(d) && dExp <= xe && oExp == ye && u128(oSig) == yc
+//@ loop 2: decreases u128(dSig)
+//@ assert before "if exp64 < minBiasedExponent-maxDigits {": p10 == p10(ye - 6176) && ye <= 6183 && yc <= 6111 && yc == oSig[0]
+//@ assert before "if exp64 < minBiasedExponent-maxDigits {": exp64 == 6176 + EE
+//@ call RoundingMode.reduce128#1: V = W
+//@ limit before "inv, res, trunc := decomposed192{"
 //@ props C18 C15 C20
 
 // ---------------------------------------------------------------------------------------------
@@ -1979,3 +2011,104 @@ package decimal128
 //@ ensures special(d) ==> tag(err) == typetag("*encoding/json.UnsupportedValueError")
 //@ ensures !special(d) ==> tag(err) == 0
 //@ props C13 C20
+
+// String / MarshalText (C06): the layout is chosen by the value: positional exactly when
+// 1e-4 <= |d| < 1e6 (or d is zero), exponent form otherwise. The bytes emitted by fmtE / fmtF are
+// outside this contract.
+//@ func Decimal.String
+//@ uses rssteps=1,2,3,4,5,6,7,8,9,10,11,12,13,14,15,16,17,18,19,20,21,22,23,24,25,26,27,28,29,30,31,32,33,34,35,36,37,38,39 rsmono=0,1,2,3,4,5,6,7,8,9,10,11,12,13,14,15,16,17,18,19,20,21,22,23,24,25,26,27,28,29,30,31,32,33,34,35,36,37,38,39
+//@ logical V real
+//@ requires !special(d) ==> V >= 0 && rs(V, bexp(d)) == coef(d)
+//@ call Decimal.digits#1: V = V
+//@ assert before "buf = digs.fmtE(buf, prec, 0, false, false, false, true, false, false, 'e')": coef(d) != 0 && (rs(V, 6172) < 1 || rs(V, 6182) >= 1)
+//@ assert before "prec = 0": digs.ndig >= 1 ==> real(p10(digs.ndig - 1)) <= rs(V, digs.exp + 6176) && rs(V, digs.exp + 6176) < real(p10(digs.ndig))
+//@ assert before "buf = digs.fmtF(buf, prec, 0, false, false, false, false, false)": coef(d) == 0 || rs(V, 6172) >= 1
+//@ assert before "buf = digs.fmtF(buf, prec, 0, false, false, false, false, false)": coef(d) == 0 || rs(V, 6182) < 1
+//@ props C06 C20
+
+//@ func Decimal.MarshalText
+//@ uses rssteps=1,2,3,4,5,6,7,8,9,10,11,12,13,14,15,16,17,18,19,20,21,22,23,24,25,26,27,28,29,30,31,32,33,34,35,36,37,38,39 rsmono=0,1,2,3,4,5,6,7,8,9,10,11,12,13,14,15,16,17,18,19,20,21,22,23,24,25,26,27,28,29,30,31,32,33,34,35,36,37,38,39
+//@ returns (out, err)
+//@ logical V real
+//@ requires !special(d) ==> V >= 0 && rs(V, bexp(d)) == coef(d)
+//@ ensures tag(err) == 0
+//@ call Decimal.digits#1: V = V
+//@ assert before "return digs.fmtE(nil, prec, 0, false, false, false, true, false, false, 'e'), nil": coef(d) != 0 && (rs(V, 6172) < 1 || rs(V, 6182) >= 1)
+//@ assert before "prec = 0": digs.ndig >= 1 ==> real(p10(digs.ndig - 1)) <= rs(V, digs.exp + 6176) && rs(V, digs.exp + 6176) < real(p10(digs.ndig))
+//@ assert before "return digs.fmtF(nil, prec, 0, false, false, false, false, false), nil": coef(d) == 0 || rs(V, 6172) >= 1
+//@ assert before "return digs.fmtF(nil, prec, 0, false, false, false, false, false), nil": coef(d) == 0 || rs(V, 6182) < 1
+//@ props C06 C20
+
+//@ func formatArgs.precision
+//@ returns (p, ok)
+//@ ensures ok == (args.prec >= 0) && p == ite(args.prec >= 0, args.prec, 0)
+//@ props C07 C20
+
+//@ func formatArgs.width
+//@ ensures result == args.wid
+//@ props C07 C20
+
+// Decimal.format (C06, C07): which layout is used. %v as String; %e/%E and %f/%F by the verb; %g/%G:
+// exponent form exactly when the decimal exponent X of the leading digit (after rounding to the
+// precision) is below -4 or at least the precision P (6 when absent, 1 when 0; with '#' and no
+// precision 6), the strconv rule. The bytes themselves are outside this contract.
+//@ func Decimal.format
+//@ uses rssteps=1,2,3,4,5,6,7,8,9,10,11,12,13,14,15,16,17,18,19,20,21,22,23,24,25,26,27,28,29,30,31,32,33,34,35,36,37,38,39 rsmono=0,1,2,3,4,5,6,7,8,9,10,11,12,13,14,15,16,17,18,19,20,21,22,23,24,25,26,27,28,29,30,31,32,33,34,35,36,37,38,39
+//@ returns (out)
+//@ logical V real
+//@ requires !special(d) ==> V >= 0 && rs(V, bexp(d)) == coef(d)
+//@ requires !special(d) && args.prec <= 100000000 - 100 && args.wid <= 100000000
+//@ call Decimal.digits#1: V = V
+//@ define X = (digs.exp + ite(digs.ndig != 0, digs.ndig - 1, 0))
+//@ define P = ite(args.prec < 0, 6, ite(args.prec == 0, 1, args.prec))
+//@ assert before "return digs.fmtE(buf, prec-1, width, args.forceDP, args.printSign, args.padSign, true, args.padRight, args.padZero, e)": X < 0 - 4 || X >= P
+//@ assert before "if args.forceDP {"#2: 0 - 4 <= X && X < P
+//@ assert before "return digs.fmtE(buf, prec, 0, false, false, false, true, false, false, 'e')": coef(d) != 0 && (rs(V, 6172) < 1 || rs(V, 6182) >= 1)
+//@ assert before "prec = 0"#2: digs.ndig >= 1 ==> real(p10(digs.ndig - 1)) <= rs(V, digs.exp + 6176) && rs(V, digs.exp + 6176) < real(p10(digs.ndig))
+//@ assert before "return digs.fmtF(buf, prec, 0, false, false, false, false, false)": coef(d) == 0 || rs(V, 6172) >= 1
+//@ assert before "return digs.fmtF(buf, prec, 0, false, false, false, false, false)": coef(d) == 0 || rs(V, 6182) < 1
+//@ props C06 C07 C20
+
+// Append (C06, C07): layout selection of the package-level Append / Format: for 'g'/'G' the same
+// switch-over rule as Decimal.format (precision -1 counts as 6).
+//@ func Append
+//@ uses rssteps=1,2,3,4,5,6,7,8,9,10,11,12,13,14,15,16,17,18,19,20,21,22,23,24,25,26,27,28,29,30,31,32,33,34,35,36,37,38,39 rsmono=0,1,2,3,4,5,6,7,8,9,10,11,12,13,14,15,16,17,18,19,20,21,22,23,24,25,26,27,28,29,30,31,32,33,34,35,36,37,38,39
+//@ returns (out)
+//@ logical V real
+//@ requires !special(d) ==> V >= 0 && rs(V, bexp(d)) == coef(d)
+//@ requires prec <= 100000000 - 100 && prec >= 0 - 100000000
+//@ call Decimal.digits#1: V = V
+//@ define X = (digs.exp + ite(digs.ndig != 0, digs.ndig - 1, 0))
+//@ define P = ite(old(prec) < 0, 6, ite(old(prec) == 0, 1, old(prec)))
+//@ assert before "return digs.fmtE(buf, prec-1, 0, false, false, false, true, false, false, e)": X < 0 - 4 || X >= P
+//@ assert before "prec = 0"#3: 0 - 4 <= X && X < P
+//@ assert before "prec = 0"#3: old(prec) < 0 && digs.ndig >= 1 ==> real(p10(digs.ndig - 1)) <= rs(V, digs.exp + 6176) && rs(V, digs.exp + 6176) < real(p10(digs.ndig))
+//@ assert before "prec = 0"#3: old(prec) < 0 && coef(d) != 0 ==> rs(V, 6172) >= 1
+//@ assert before "prec = 0"#3: old(prec) < 0 && coef(d) != 0 ==> rs(V, 6182) < 1
+//@ assert before "return digs.fmtE(buf, prec-1, 0, false, false, false, true, false, false, e)": old(prec) < 0 ==> coef(d) != 0 && (rs(V, 6172) < 1 || rs(V, 6182) >= 1)
+//@ props C06 C07 C20
+
+// digits.fmtE (C06, C07), the exponent field only: after the mantissa the output carries the letter
+// e, the sign of the exponent X of the leading digit and |X| in decimal, most significant digit
+// first (the digits d_k satisfy sum d_k 10^k = |X|, each 0..9), at least two digits when padExp is set. (The mantissa bytes and the padding are outside
+// this contract.)
+//@ func digits.fmtE
+//@ returns (out)
+//@ requires 0 <= d.ndig && d.ndig <= 39 && 0 - 9900 <= d.exp && d.exp <= 9900 && width <= 100000000 && prec <= 100000000
+//@ define AX = (d.exp + ite(d.ndig > 1, d.ndig - 1, 0))
+//@ define AE = ite(AX < 0, 0 - AX, AX)
+//@ define L = len(buf)
+//@ define SG = ite(AX < 0, 45, 43)
+//@ assert after "buf = append(buf, '0'+byte(exp))": exp == AE && AE < 10 && !padExp && L >= 3 && buf[L - 1] == 48 + AE && buf[L - 2] == SG && buf[L - 3] == e
+//@ assert after "buf = append(buf, '0', '0'+byte(exp))": exp == AE && AE < 10 && padExp && L >= 4 && buf[L - 1] == 48 + AE && buf[L - 2] == 48 && buf[L - 3] == SG && buf[L - 4] == e
+//@ assert after "buf = append(buf, '0'+byte(exp/10), '0'+byte(exp%10))": exp == AE && 10 <= AE && AE < 100 && L >= 4 && 48 <= buf[L - 1] && buf[L - 1] <= 57 && 48 <= buf[L - 2] && buf[L - 2] <= 57 && 10 * (buf[L - 2] - 48) + (buf[L - 1] - 48) == AE && buf[L - 3] == SG && buf[L - 4] == e
+//@ assert after "buf = append(buf, '0'+byte(exp/100), '0'+byte(exp/10%10), '0'+byte(exp%10))": exp == AE && 100 <= AE && AE < 1000 && L >= 5 && 48 <= buf[L - 1] && buf[L - 1] <= 57 && 48 <= buf[L - 2] && buf[L - 2] <= 57 && 48 <= buf[L - 3] && buf[L - 3] <= 57 && 100 * (buf[L - 3] - 48) + 10 * (buf[L - 2] - 48) + (buf[L - 1] - 48) == AE && buf[L - 4] == SG && buf[L - 5] == e
+//@ assert after "buf = append(buf, '0'+byte(exp/1000), '0'+byte(exp/100%10), '0'+byte(exp/10%10), '0'+byte(exp%10))": exp == AE && 1000 <= AE && AE < 10000 && L >= 6 && buf[L - 5] == SG && buf[L - 6] == e
+//@ assert after "buf = append(buf, '0'+byte(exp/1000), '0'+byte(exp/100%10), '0'+byte(exp/10%10), '0'+byte(exp%10))": buf[L - 4] - 48 == exp / 1000 && buf[L - 1] - 48 == exp % 10
+//@ assert after "buf = append(buf, '0'+byte(exp/1000), '0'+byte(exp/100%10), '0'+byte(exp/10%10), '0'+byte(exp%10))": buf[L - 3] - 48 == (exp / 100) % 10
+//@ assert after "buf = append(buf, '0'+byte(exp/1000), '0'+byte(exp/100%10), '0'+byte(exp/10%10), '0'+byte(exp%10))": buf[L - 2] - 48 == (exp / 10) % 10
+//@ assert after "buf = append(buf, '0'+byte(exp/1000), '0'+byte(exp/100%10), '0'+byte(exp/10%10), '0'+byte(exp%10))": exp == AE && 1000 <= AE && AE < 10000 && L >= 6 && 48 <= buf[L - 1] && buf[L - 1] <= 57 && 48 <= buf[L - 2] && buf[L - 2] <= 57 && 48 <= buf[L - 3] && buf[L - 3] <= 57 && 48 <= buf[L - 4] && buf[L - 4] <= 57 && 1000 * (buf[L - 4] - 48) + 100 * (buf[L - 3] - 48) + 10 * (buf[L - 2] - 48) + (buf[L - 1] - 48) == AE && buf[L - 5] == SG && buf[L - 6] == e
+//@ loop 1: invariant 0 <= i
+//@ loop 1: decreases prec - i
+//@ cut before "buf = append(buf, e)": havoc buf: len(buf) >= 0
+//@ props C06 C07 C20
